@@ -307,7 +307,9 @@ func (conn *Conn) recv() {
 		call.Error = err
 		call.done()
 	}
-	for _, call := range conn.streams {
+	for seq, call := range conn.streams {
+		// The connection is gone: its streams no longer count as outstanding.
+		delete(conn.streams, seq)
 		if call.stream != nil {
 			call.stream.stop()
 		}
